@@ -85,6 +85,8 @@ pub proof fn vec_len_bound<T>(v: &Vec<T>)
 #[verifier::external_body] #[verifier::reject_recursive_types(T)] pub struct ParseTreeStack<T> { _x: Vec<T> }
 impl<T> ParseTreeStack<T> {
     #[verifier::external_body]
+    pub fn new() -> (r: Self) { unimplemented!() }
+    #[verifier::external_body]
     pub fn push(&mut self, node: T) { unimplemented!() }
 }
 /// the token stream, opaque: the methods the parse loop calls (proved with their full contracts in unit ts_stream)
